@@ -199,6 +199,31 @@ theorem line_rejects_zero (atol : K) (hat : 0 ≤ atol) (p : V3 K) :
   rw [line_mk_error_iff]
   simp [hat]
 
+/-- the full statement "Line rejects *exactly* the zero direction" — kept visible as a `def`; it is FALSE of the
+    code for the default `atol = 1e-8` (known finding `line/tiny-direction-rejected`, witness below): what the code
+    does is `line_mk_error_iff` (every direction with all |components| ≤ atol is refused). -/
+def LineRejectsExactlyZero (atol : K) : Prop :=
+  ∀ p a : V3 K, Line.mk? atol p a = .error .ValueError ↔ a = V3.zero
+
+/-- **defect witness**: with `atol = 1e-8` the model (like the code) refuses the direction `(1e-9, 0, 0)` although
+    it is not the zero vector. -/
+theorem line_tiny_direction_defect_witness :
+    Line.mk? (1 / 100000000 : ℚ) ⟨0, 0, 0⟩ ⟨1 / 1000000000, 0, 0⟩ = .error .ValueError ∧
+    (⟨1 / 1000000000, 0, 0⟩ : V3 ℚ) ≠ V3.zero := by
+  constructor
+  · rw [line_mk_error_iff]
+    refine ⟨?_, ?_, ?_⟩ <;> simp only [abs_zero] <;> norm_num [abs_of_pos]
+  · intro h
+    have := congrArg V3.x h
+    simp only [V3.zero_x] at this
+    norm_num at this
+
+/-- hence the full statement fails for the default tolerance -/
+theorem line_rejects_exactly_zero_fails : ¬ LineRejectsExactlyZero (1 / 100000000 : ℚ) := by
+  intro h
+  obtain ⟨h1, h2⟩ := line_tiny_direction_defect_witness
+  exact h2 ((h _ _).mp h1)
+
 /-- … and an accepted line stores the point and the direction unchanged, and its direction is not zero. -/
 theorem line_mk_ok (atol : K) (hat : 0 ≤ atol) (p a : V3 K) (l : Line K) (h : Line.mk? atol p a = .ok l) :
     l.ref = p ∧ l.along = a ∧ a ≠ V3.zero ∧ l.referencePoints = (p, p + a) := by
